@@ -34,7 +34,7 @@ def cases(ctx):
     # seeded random
     rng = ctx.rng
     for i in range(1500 if not thorough else 12000):
-        s = gen.random_nfa(rng)
+        s = gen.random_nfa(rng, names=gen.ODD_NAMES if i % 25 == 7 else None)
         L = 4 if len(s['Sigma']) <= 2 else 3
         ws = gen.all_words(s['Sigma'], L)
         if len(ws) > 40:
